@@ -921,10 +921,14 @@ def _traced_case(b):
     if event == "line":
       n[0] += 1
       if n[0] > LINE_BUDGET:
-        co = frame.f_code
-        if _PKT_DIR in co.co_filename:
-          last[0] = (os.path.basename(co.co_filename)[:-3],
-                     getattr(co, "co_qualname", co.co_name), frame.f_lineno)
+        f = frame
+        while f is not None:
+          co = f.f_code
+          if _PKT_DIR in co.co_filename:
+            last[0] = (os.path.basename(co.co_filename)[:-3],
+                       getattr(co, "co_qualname", co.co_name), f.f_lineno)
+            break
+          f = f.f_back
         raise _Budget()
     return tracer
 
@@ -1250,7 +1254,8 @@ def run_plan(plan):
     res["verdict"] = "violation"
     res["vclass"] = f["id"]
     res["detail"] = {
-      "case": cid, "mode": descr[0], "offset": descr[1], "value": descr[2],
+      "case": cid, "frame": cid.split(":")[0] if not cid.startswith("rnd:")
+      else None, "mode": descr[0], "offset": descr[1], "value": descr[2],
       "operation": f["op"], "exception": f["exc"], "message": f["msg"],
       "raised_in": "%s:%d %s" % (f["file"], f["line"], f["func"]),
       "other_unknown_findings_in_batch": [
